@@ -114,6 +114,8 @@ MISC = [('Number("-00")', "-0"), ('+"-00"', "-0"), ('"-00" * 1', "-0"), ('Number
         ("new Float32Array([16777216]).indexOf(16777217)", "-1"), ("new Float32Array([16777216]).lastIndexOf(16777217)", "-1"), ("new Float32Array([-0]).includes(0)", "true"),
         ("new Float64Array(new BigUint64Array([0x7ff8000000000001n]).buffer).includes(NaN)", "true"), ("new Float64Array([NaN]).indexOf(NaN)", "-1"),
         ("new Int8Array([1, 2]).includes(1.5)", "false"), ("new Int8Array([1, 2]).includes(258)", "false"), ("new Uint8Array([0]).includes(-0)", "true"),
+        ('parseInt("-0")', "-0"), ('parseInt("-0x0")', "-0"), ('parseInt("-000", 8)', "-0"), ('parseInt("-0.9")', "-0"), ('Number.parseInt(" -0 ")', "-0"), ('parseInt("+0")', "0"),
+        ('parseInt("0")', "0"), ('parseFloat("-0")', "-0"), ('parseFloat("-0.0e3x")', "-0"),
         ('[1, 2, 3].slice(0, "1e30").length', "3"), ('"abc".substring(0, "1e30")', '"abc"'), ('[1, 2, 3].slice("-1e30").length', "3"), ('"abc".slice("-1e400")', '"abc"'),
         ('[1, 2, 3].indexOf(3, "-1e30")', "2"), ('"abc".charAt("1e30")', '""'), ('[1, 2, 3].at("1e30")', "undefined"), ('"abcabc".lastIndexOf("c", "1e30")', "5")]
 
